@@ -16,6 +16,22 @@ def chk(pid, technique, text, note, design):
     }
 
 CHECKS = [
+ chk('C04', 'rapidcheck generated fields + exhaustive 146097-day base vs 128-bit reference normalization, under UBSan',
+     'Six int64 fields from an anchored mixture, year drawn inside the exactly computed admissible interval (edges included); '
+     'all six civil types, all 36 alignment conversions and operator<< compared with refcal; UBSan turns intermediate overflow into a failure.',
+     'Trusts refcal.h; sampled (not exhaustive) over int64^6.', 'DESIGN.md §5 C04'),
+ chk('C05', 'rapidcheck generated (alignment, civil time, count) vs 128-bit unit arithmetic, under UBSan',
+     'For every alignment: a+n, n+a, b-n, b-a, inverse laws, ++/--/+=/-=, all relational operators incl. cross-alignment, '
+     'with n drawn inside the exactly computed representable interval incl. INT64_MIN/MAX and extreme years.',
+     'Trusts refcal.h; sampled over the input space.', 'DESIGN.md §5 C05'),
+ chk('C15', 'exhaustive offset enumeration + rapidcheck mutated name strings vs documented naming rules',
+     'Every offset in [-90000,90000] (thorough; quick strides) x instants across int64: name, abbreviation, lookups both ways, '
+     'load-by-name equality, no data-source access (counting factory), name->offset; mutated/random strings against the acceptance rule.',
+     'Naming rules transcribed from the headers; refcal for civil fields.', 'DESIGN.md §5 C15'),
+ chk('C18', 'rapidcheck typed panel of duration types vs 128-bit floor division',
+     '12 duration types x rep values at second boundaries / representation limits / uniform x zones x 0-18 digits: lookup, convert, '
+     'format whole and fractional fields; parse into every panel type incl. range failure for narrow representations.',
+     'Trusts refcal.h; panel of types is finite (listed in the rule).', 'DESIGN.md §5 C18'),
  chk('C17', 'exhaustive enumeration + rapidcheck-generated windows vs 128-bit reference calendar',
      'Every day of a 400-year window (146097 days) x 7 weekdays is enumerated for each window; windows cover the '
      'int64 year extremes, negative years and rapidcheck-generated start years. Exhaustive per window, sampled over windows.',
